@@ -448,7 +448,7 @@ def txt_blob(props):
 
 def run(ctx):
     quick = ctx.tier == "quick"
-    depth = 5 if quick else 7
+    depth = 5 if quick else 10
     configs = [
         dict(kind="ip", pairing="none", waiters=2, ids=2 if not quick else 1, P=1),
         dict(kind="ip", pairing="cached", waiters=2, ids=1, P=1),
@@ -461,7 +461,8 @@ def run(ctx):
         dict(kind="agg", pairing="none", waiters=2 if not quick else 1, ids=1, P=1 if not quick else 0),
     ]
     if not quick:
-        configs += [dict(kind="ip", pairing="none", waiters=3, ids=1, P=1, timeouts=(5.0, 10.0)), dict(kind="ble", pairing="none", waiters=3, ids=2, P=1), dict(kind="coap", pairing="nocache", waiters=1, ids=1, P=1)]
+        configs += [dict(kind="ip", pairing="none", waiters=3, ids=1, P=1, timeouts=(5.0, 10.0)), dict(kind="ble", pairing="none", waiters=3, ids=2, P=1), dict(kind="coap", pairing="nocache", waiters=1, ids=1, P=1),
+                    dict(kind="ble", pairing="none", waiters=2, ids=1, P=2, timeouts=(5.0, 10.0)), dict(kind="ip", pairing="none", waiters=2, ids=1, P=2), dict(kind="agg", pairing="none", waiters=2, ids=1, P=2)]
     work = []
     for p in configs:
         d = depth - (1 if p["kind"] == "agg" or p.get("ids", 1) > 1 or p.get("waiters", 2) > 2 else 0)
